@@ -39,3 +39,10 @@ Theorem c09_suspended_thread_is_untouched : forall e s c t,
   ~ In t s -> c_pool (exec e c s) t = c_pool c t.
 Proof. exact unscheduled_thread_untouched. Qed.
 Print Assumptions c09_suspended_thread_is_untouched.
+
+(** stuttering: once the scheduled threads have finished their programs (the state the fair-termination theorem
+    reaches), scheduling them further changes nothing at all -- shared state, local states, trace, labels *)
+Theorem c09_finished_threads_do_nothing : forall e s c,
+  (forall t, In t s -> t_pc (c_pool c t) = PIdle /\ t_todo (c_pool c t) = []) -> exec e c s = c.
+Proof. exact finished_threads_do_nothing. Qed.
+Print Assumptions c09_finished_threads_do_nothing.
